@@ -6,12 +6,11 @@ def run(ctx):
     t = ctx.tier == "thorough"
     ctx.rule = ("random programs with a refusal-heavy profile (capacity 1..5, unknown targets, T/rotation, identical operands, register limit) "
                 "injected at random points of random histories, for local / remote / third-node placements; for every refused operation: exception "
-                "class in the documented set, full dump before = after, no lock held; distinct = distinct (capacities, operation, dump)")
-    extra = None
-    try:
-        from props import c05pb
-        extra = c05pb.extra
-    except ImportError:
-        pass
+                "class in the documented set, full dump before = after, no lock held; refusals racing with other clients' operations under seeded schedules over the real PB; distinct = distinct (capacities, operation, dump)")
+    def extra(ctx, env0, runners):
+        from props import concextra
+        concextra.run(ctx, "C05", concextra.judge_c05,
+                      "with concurrent clients every operation that does not succeed is refused with a documented class, no operation fails because "
+                      "another one was refused, and no lock is held once the network is idle")
     netprop.run_property(ctx, "C05", ["refuse", "capacity", "refuse", "mixed", "registers"], 1500 if t else 150, 30 if t else 24,
                          scenarios=scen.refusals() + scen.capacity() + scen.register_limit() + scen.big_merge() + scen.register_api(), own_props=["C05"], extra=extra)
